@@ -128,7 +128,11 @@ impl World {
 			WireMsg::Add(u) => {
 				self.oracle_forward_admission(from, u);
 				let first = self.ledgers[li].sides[side].add_ids_emitted.insert(u.htlc_id);
-				if self.ledgers[li].sides[side].shutdown_sent {
+				if self.ledgers[li].sides[side].shutdown_sent
+					|| (first && self.ledgers[li].sides[side].shutdown_sent_ever && !self.chans[li].tainted)
+				{
+					// (a first transmission after a reconnection is no retransmission: the node had
+					// sent its shutdown in the earlier connection and must not add HTLCs any more)
 					self.oracle_add_after_shutdown(from, li, u.htlc_id, first);
 				}
 				self.ledgers[li].emit_update(
@@ -157,7 +161,10 @@ impl World {
 				self.oracle_on_raa_emitted(from, li, r);
 			},
 			WireMsg::Commit(cs) => self.oracle_on_cs_emitted(from, li, side, cs),
-			WireMsg::Shutdown(_) => self.ledgers[li].sides[side].shutdown_sent = true,
+			WireMsg::Shutdown(_) => {
+				self.ledgers[li].sides[side].shutdown_sent = true;
+				self.ledgers[li].sides[side].shutdown_sent_ever = true;
+			},
 			WireMsg::FundingSigned(_) | WireMsg::ChannelReady(_) => {
 				self.out.bump("oracle:C09-2 funding_signed/channel_ready only once the monitor is durable");
 				let key_known = self.chans[li].channel_id.0 != [0u8; 32] || matches!(m, WireMsg::FundingSigned(_));
